@@ -6,17 +6,10 @@ NOTES = ("Technique: machine-checked proof in Lean 4 of a formal model, tied to 
 _TB = ("Lean kernel + Mathlib; axioms propext/Classical.choice/Quot.sound only (audited each run); translator and "
        "harness trusted, validated by gen.* streams; ")
 
-CLAIMED = {
-    "C05": {
-        "text": "Lean theorems (for all integers / all byte strings): CompactSize parse∘serialize and serialize∘parse "
-                "are inverse with exact consumption, size = length, domain exactly 0..2^64-1; stated about the "
-                "serializer and size function TRANSLATED from the source each run and a parser model tied by "
-                "correspondence. Partial: further wire classes are being added to the model; classes without a "
-                "model are covered by the direct round-trip oracle on the real code only.",
-        "note": _TB + "parser model hand-written (Model/C05), tied by differential streams; JSON/base64 layers not modelled.",
-        "technique": "Lean 4 proof over translated source + model/implementation correspondence",
-    },
-}
+import glob, json, os
+CLAIMED = {}
+for _f in sorted(glob.glob(os.path.join(os.path.dirname(__file__), "manifest", "C??.json"))):
+    CLAIMED[os.path.basename(_f)[:3]] = json.load(open(_f))   # keys: text, note, technique[, design_ref]
 
 _PENDING = "model, theorems and correspondence for this property are not built yet in this revision (planned: DESIGN.md §3); not claimed until they run"
 NOT_APPLICABLE = {f"C{i:02d}": _PENDING for i in range(1, 21) if f"C{i:02d}" not in CLAIMED}
